@@ -48,6 +48,12 @@ func gen(t *rapid.T) Case {
 	default:
 		c.FailAt = rapid.IntRange(1, c.Items).Draw(t, "failat")
 	}
+	if rapid.IntRange(0, 3).Draw(t, "earlyfailure") == 0 {
+		// many items, several goroutines and an early failure: where an enumeration that carries on shows
+		c.Items = rapid.IntRange(300, 600).Draw(t, "manyitems")
+		c.Goroutines = rapid.IntRange(2, 4).Draw(t, "severalgoroutines")
+		c.FailAt = rapid.IntRange(1, 5).Draw(t, "earlyfailat")
+	}
 	if c.FailAt > 0 && rapid.IntRange(0, 3).Draw(t, "second") == 0 {
 		c.FailAlso = rapid.IntRange(1, c.Items).Draw(t, "failalso")
 	}
@@ -62,7 +68,7 @@ type probe struct {
 	c        Case
 	started  int64
 	failed   int32
-	after    int64
+	after    int64 // invocations started after the first failing one was about to return
 	returned int64
 }
 
@@ -240,41 +246,57 @@ func check(c Case) vlib.Outcome {
 			return vlib.Excluded(sig)
 		}
 	}
-	p := &probe{c: c}
-	n, run, cleanup, err := stream(c, p)
-	defer cleanup()
-	if err != nil {
-		return vlib.Fail("setting up %s with %d items failed: %v", c.Stream, c.Items, err)
-	}
-	done := make(chan error, 1)
-	go func() { done <- run() }()
-	var result error
-	select {
-	case result = <-done:
-	case <-time.After(5 * time.Second):
-		return vlib.Fail("%s over %d items with %d goroutines hasn't returned 5s after invocation %d of the callback failed (%d invocations started, %d returned)", c.Stream, n, c.Goroutines, c.FailAt, atomic.LoadInt64(&p.started), atomic.LoadInt64(&p.returned))
-	}
-	started, after := int(atomic.LoadInt64(&p.started)), int(atomic.LoadInt64(&p.after))
-	what := fmt.Sprintf("%s over %d items with %d goroutines", c.Stream, n, c.Goroutines)
-	if c.FailAt == 0 {
-		if result != nil {
-			return vlib.Fail("%s fails although no callback did: %v", what, result)
+	// Promptly: once a failing callback has returned, each goroutine may finish the item it holds and
+	// take those already queued; anything beyond a small multiple of the goroutine count is an
+	// enumeration that carries on. The goroutine that failed can be descheduled between failing and
+	// saying so, which lets the others get further: the enumeration is only held to carry on if it
+	// does so on five attempts in a row.
+	limit := 8*c.Goroutines + 8
+	var n, after int
+	var what string
+	for attempt := 0; attempt < 5; attempt++ {
+		p := &probe{c: c}
+		var run func() error
+		var cleanup func()
+		var err error
+		n, run, cleanup, err = stream(c, p)
+		if err != nil {
+			cleanup()
+			return vlib.Fail("setting up %s with %d items failed: %v", c.Stream, c.Items, err)
 		}
-		if started != n {
-			return vlib.Fail("%s invoked the callback %d times", what, started)
+		done := make(chan error, 1)
+		go func() { done <- run() }()
+		var result error
+		select {
+		case result = <-done:
+		case <-time.After(5 * time.Second):
+			cleanup()
+			return vlib.Fail("%s over %d items with %d goroutines hasn't returned 5s after invocation %d of the callback failed (%d invocations started, %d returned)", c.Stream, n, c.Goroutines, c.FailAt, atomic.LoadInt64(&p.started), atomic.LoadInt64(&p.returned))
 		}
-		return vlib.Outcome{Classes: []string{"stream=" + c.Stream, "no-failure"}}
+		cleanup()
+		started := int(atomic.LoadInt64(&p.started))
+		after = int(atomic.LoadInt64(&p.after))
+		what = fmt.Sprintf("%s over %d items with %d goroutines", c.Stream, n, c.Goroutines)
+		if c.FailAt == 0 {
+			if result != nil {
+				return vlib.Fail("%s fails although no callback did: %v", what, result)
+			}
+			if started != n {
+				return vlib.Fail("%s invoked the callback %d times", what, started)
+			}
+			return vlib.Outcome{Classes: []string{"stream=" + c.Stream, "no-failure"}}
+		}
+		if result == nil {
+			return vlib.Fail("%s reports success although invocation %d of the callback returned an error", what, c.FailAt)
+		}
+		if after <= limit {
+			break
+		}
+		if attempt == 4 {
+			return vlib.Fail("%s invoked the callback %d more times after invocation %d had failed, and more than %d on each of 5 attempts", what, after, c.FailAt, limit)
+		}
 	}
-	if result == nil {
-		return vlib.Fail("%s reports success although invocation %d of the callback returned an error", what, c.FailAt)
-	}
-	// Promptly: once a failing callback has returned, each goroutine may finish the item it holds
-	// and take one more that was already queued for it; anything beyond a small multiple of the
-	// goroutine count is an enumeration that carries on.
-	if limit := 8*c.Goroutines + 8; after > limit {
-		return vlib.Fail("%s invoked the callback %d more times after invocation %d had failed (limit for stopping promptly: %d)", what, after, c.FailAt, limit)
-	}
-	out := vlib.Outcome{NonTrivial: n-c.FailAt > 8*c.Goroutines+8, Classes: []string{"stream=" + c.Stream}}
+	out := vlib.Outcome{NonTrivial: n-c.FailAt > 2*limit, Classes: []string{"stream=" + c.Stream}}
 	if c.Goroutines > 1 {
 		out.Classes = append(out.Classes, "parallel")
 	}
@@ -286,6 +308,6 @@ func check(c Case) vlib.Outcome {
 
 func TestProp(t *testing.T) {
 	vlib.Run(t, vlib.Config{ID: "C28", Name: "callback-errors", CaseTimeout: 120e9,
-		Rule: "each streaming interface (Uint64Map.EachItem, MemoryFeatureSource.Read, ReadPBFWithOptions, PBFFilesOSMSource over 2-3 files, EachFeature of basic, mutable, overlay and compact worlds, EachModifiedTag, EachModifiedFeature) over 1-600 items with 1-4 goroutines; the callback fails on a generated invocation (first, last, any, none; sometimes a second one too) and yields the processor on a generated subset of its first 64 invocations; oracle: an error is returned exactly when a callback failed, the call returns within 5 s, at most 8*goroutines+8 invocations start after a failing one has returned, and without a failure every item is delivered once; non-trivial = more items remain after the failure than that limit"},
+		Rule: "each streaming interface (Uint64Map.EachItem, MemoryFeatureSource.Read, ReadPBFWithOptions, PBFFilesOSMSource over 2-3 files, EachFeature of basic, mutable, overlay and compact worlds, EachModifiedTag, EachModifiedFeature) over 1-600 items with 1-4 goroutines; the callback fails on a generated invocation (first, last, any, none; sometimes a second one too) and yields the processor on a generated subset of its first 64 invocations; oracle: an error is returned exactly when a callback failed, the call returns within 5 s, at most 8*goroutines+8 invocations start after a failing one (on at least one of up to 5 attempts, since the failing goroutine can be descheduled before it reports), and without a failure every item is delivered once; non-trivial = more than twice that many items remain after the failure"},
 		gen, check)
 }
